@@ -85,9 +85,18 @@ class Tape:
 findings = []
 
 
+FIXED = {
+    # repaired in /repo by the integrator (C10 fix of Zp_field_operators::get_value(signed), /repo commit da09ed7d3 and
+    # predecessors): the probe holds, the exclusion is off, coefficients < -p are generated again
+    "C09-negative-coefficient": "fixed",
+}
+
+
 def finding(fid, tape, expect, what, trigger):
     probe = tape.write("kf-%s.tape" % fid)
-    findings.append({"property": "C09", "id": fid, "status": "known", "what": what, "trigger": trigger,
+    if fid in FIXED:
+        tape.write("reg-%s.tape" % fid)  # replayed with the corpus from now on: must hold
+    findings.append({"property": "C09", "id": fid, "status": FIXED.get(fid, "known"), "what": what, "trigger": trigger,
                      "target": tape.target, "probe": probe, "expect_class": expect,
                      "report": "findings/%s.md" % fid})
 
